@@ -121,24 +121,24 @@ CHECKS = {
 
 MORE = {
     "C02": " Strings of 32+ characters that are no ids but name an existing path below the workspace raise KeyError.",
-    "C03": " The operation set includes whole assignments that must be refused as a whole (no effect on disk or on any live handle), remove-then-reopen-by-id within one session, and shallow copies that follow move().",
-    "C04": " Also: a destination directory without state point file is never taken over; a refused change followed by a successful one through either of two shallow copies; clone of payloads with symbolic links is an independent copy (real file system).",
-    "C05": " Life-cycle harness: removal through another handle / through a shallow copy followed by writes through the remaining handle.",
+    "C03": " A Project built by the real constructor from a relative path keeps acting on the project after the working directory changed (real file system). The operation set includes whole assignments that must be refused as a whole (no effect on disk or on any live handle), remove-then-reopen-by-id within one session, and shallow copies that follow move().",
+    "C04": " Also: a destination directory without state point file is never taken over; update_statepoint without overwrite never alters an ==-equal value of another JSON type; a refused change followed by a successful one through either of two shallow copies; clone of payloads with symbolic links is an independent copy (real file system).",
+    "C05": " Life-cycle harness: removal through another handle / through a shallow copy followed by writes through the remaining handle; a transient I/O fault on the first document access followed by a retry through the same handle.",
     "C06": " Further templates: one key used in several sub-expressions (three jobs), $or and $not side by side, key names that start like a namespace, lists of mappings with nested containers, $near at zero; a raising query counts as disagreement.",
     "C07": " The string front end (parse_filter on a token string) agrees with the token list; filtered cursors are snapshots across workspace changes and independent of later changes to the caller's filter mapping; one-shot iterables as grouping keys.",
     "C08": " Histories also contain re-keys through by-id handles, jobs initialised by another process, re-assignment of the identical state point; abbreviated ids resolve against the workspace (also as the first action of a session); the real constructor with a configured cache-miss threshold and non-finite state point values (real file system).",
     "C09": " A second universe with the empty state point and falsy values.",
-    "C10": " After every crash and between any two writer steps a fresh session reads through signac's own read path (old or new, nothing raised, targets still old-or-new afterwards); Job.clear/reset through a fresh handle; the migration's project-document write with all of the migration module's own I/O numbered.",
-    "C11": " Also clone onto an existing job and into an empty destination directory, each with and without a persistent cache listing all jobs.",
+    "C10": " After every crash and between any two writer steps a fresh session reads through signac's own read path (old or new, nothing raised, targets still old-or-new afterwards); Job.clear/reset through a fresh handle; a device that runs full at ANY step and stays full; the migration's project-document write with all of the migration module's own I/O numbered.",
+    "C11": " Without a fault every scenario ends like its reference run; rmtree error handlers are modelled. Also clone onto an existing job and into an empty destination directory, each with and without a persistent cache listing all jobs.",
     "C12": " Scripts include init(force=True) of the same job (pre-emption bound 3 in the quick tier).",
-    "C13": " Also: one exclude list object reused for two syncs, data files named like signac's own files, an empty destination directory named by a source id, destination-only files named like document backups, exclude patterns that match signac's own file names.",
+    "C13": " Also: one exclude list object reused for two syncs, data files named like signac's own files, an empty destination directory named by a source id, destination-only files named like document backups, exclude patterns that match signac's own file names, symbolic links to directories inside a source job, an I/O fault in the middle of copying one file (never a normal return with a truncated file).",
     "C14": " FileSync.update with SYMBOLIC integer modification times (both getmtime answers are solver variables): overwritten iff the source is strictly newer.",
     "C15": " Also: exclude patterns inside source-only sub-directories and newly cloned jobs, job-level dry runs into uninitialised or half-made destinations, two deep syncs in one process with an in-place rewrite of equal size and mtime, user-written document strategies under dry_run, parallel runs report the conflict a sequential run reports.",
     "C16": " Round trips with empty directories, zip payloads, targets whose path starts like the importing workspace's, paths with '..' or absolute paths (rejected), un-normalised origins, the empty state point with a callable schema.",
     "C17": " Selections: all / all but one / empty / one-shot generator; keys named like the link ('job'), values '.', '..', '' (rejected); the workspace is byte-identical around every view update.",
     "C18": " The value universe includes mappings with digit-string keys next to lists and mappings inside lists that hold lists.",
     "C19": " Directory names that merely contain an id (prefix/suffix, 33-64 hex, upper case; z3 builds further witnesses from the live id regex), a left-over legacy configuration between or above the queried directory, symlinked jobs are listed.",
-    "C20": " Workspace names '.workspace', '../workspace', '$VAR/ws', a custom workspace that was never created (also with a colliding 'workspace'), project names with '%' and '$', a version-less v2 configuration, and a process that probed the directory before the project appeared.",
+    "C20": " Workspace names '.workspace', '../workspace', '$VAR/ws', '$VAR/ws' with an absolute value, a custom workspace that was never created (also with a colliding 'workspace'), project names with '%' and '$', a version-less v2 configuration, and a process that probed the directory before the project appeared.",
 }
 for _k, _v in MORE.items():
     CHECKS[_k]["text"] += _v
